@@ -125,7 +125,7 @@ func TestForkAdoption(t *testing.T) {
 			}})
 		w := h.W
 		base := w.Replicas[0]
-		own := copyOf(t, w, base, "own", w.God)     // the node under test
+		own := copyOf(t, w, base, "own", w.God)       // the node under test
 		forkSide := copyOf(t, w, base, "fork", w.God) // the peer on the other branch
 		ref := copyOf(t, w, base, "reference", w.God) // only ever sees the fork
 		common0 := base.Head().Height()
@@ -148,9 +148,9 @@ func TestForkAdoption(t *testing.T) {
 			blk, cert, mode := extend(t, w, forkSide, func(blk *types.Block) sim.CertMode {
 				needs := tip || blk.Header.Flags().HasFlag(types.IdentityUpdate)
 				if needs {
-					return sim.CertMode(rapid.SampledFrom([]string{"valid", "valid", "valid", "stale-committee", "stale-committee", "nil", "empty", "under-quorum", "forged", "wrong-hash"}).Draw(t, "requiredCert"))
+					return sim.CertMode(rapid.SampledFrom([]string{"valid", "valid", "valid", "stale-committee", "stale-committee", "nil", "empty", "under-quorum", "forged", "wrong-hash", "duplicated-vote", "duplicated-vote"}).Draw(t, "requiredCert"))
 				}
-				return sim.CertMode(rapid.SampledFrom([]string{"nil", "nil", "empty", "valid", "forged", "under-quorum"}).Draw(t, "optionalCert"))
+				return sim.CertMode(rapid.SampledFrom([]string{"nil", "nil", "empty", "valid", "forged", "under-quorum", "duplicated-vote"}).Draw(t, "optionalCert"))
 			}, forkTypes)
 			needs := tip || blk.Header.Flags().HasFlag(types.IdentityUpdate)
 			if blk.Header.Flags().HasFlag(types.IdentityUpdate) {
@@ -168,6 +168,9 @@ func TestForkAdoption(t *testing.T) {
 			}
 			if mode == "stale-committee" {
 				evid.Count("cert.stale_committee_generated")
+			}
+			if mode == sim.CertDuplicated && cert != nil && len(cert.Signatures) > 1 {
+				evid.Count("cert.duplicated_vote_generated")
 			}
 			shapes += string(mode) + ","
 			bundles = append(bundles, types.BlockBundle{Block: blk, Cert: cert})
